@@ -22,6 +22,7 @@ type Interp struct {
 	names    []string
 	Restr    []Restriction
 	Events   []ParseEvent
+	Matches  []MatchEvent // decided regexp matches, in execution order
 	Assumed  []Assumption
 	Unknown  []string // extern calls whose result was made opaque
 	Steps    int
@@ -29,6 +30,167 @@ type Interp struct {
 	MaxDepth int
 	Funcs    map[string]bool // functions interpreted
 	globals  map[*ssa.Global]*Node
+	// Written, when non-nil, collects every memory location that was stored to
+	// (Store, copy, PutUintN, in-place append) or forgotten (havoc) during the
+	// run: rules use it to tell which fields of an object a function assigns,
+	// whatever the shape of the code that does it.
+	Written map[*Node]bool
+
+	// path enumeration (see Paths): outcomes prescribed for the first
+	// data-dependent branches that do not guard an error exit, and the outcomes
+	// actually taken so far.
+	forkOn     bool
+	forkPrefix []bool
+	forkTrace  []bool
+}
+
+// Paths enumerates the paths of an analysis through data-dependent branches
+// that do NOT guard an error exit (a display name chosen by a flag bit, a
+// legacy/modern alternative picked by a data byte). Without it such a branch
+// aborts the run. With it the analysis is repeated once per combination of
+// outcomes (depth-first, the run being deterministic given the outcomes) and
+// the rule must find its clause true on every path: together the paths cover
+// every input of the analysed shape, each path describing the inputs that
+// take it, still bit by bit. Combinations no input can take are explored too,
+// which can only make a rule stricter.
+//
+//	ps := absint.NewPaths(256)
+//	for ps.More() {
+//		in := absint.New(…); ps.Attach(in)
+//		… in.Call(…) …
+//	}
+//	if ps.Overflow { /* not decided */ }
+type Paths struct {
+	Max      int
+	Count    int
+	Overflow bool
+	prefix   []bool
+	cur      *Interp
+	done     bool
+}
+
+const maxForksPerPath = 48
+
+func NewPaths(max int) *Paths { return &Paths{Max: max} }
+
+func (p *Paths) More() bool {
+	if p.cur != nil {
+		t := p.cur.forkTrace
+		for len(t) > 0 && !t[len(t)-1] {
+			t = t[:len(t)-1]
+		}
+		if len(t) == 0 {
+			p.done = true
+		} else {
+			p.prefix = append([]bool(nil), t...)
+			p.prefix[len(p.prefix)-1] = false
+		}
+		p.cur = nil
+	}
+	if p.done {
+		return false
+	}
+	if p.Count >= p.Max {
+		p.Overflow = true
+		return false
+	}
+	p.Count++
+	return true
+}
+
+// Attach makes in follow the current path. One interpreter per path.
+func (p *Paths) Attach(in *Interp) {
+	in.forkOn, in.forkPrefix, in.forkTrace = true, p.prefix, nil
+	p.cur = in
+}
+
+// Forks is the number of data-dependent branches taken on the path so far.
+func (in *Interp) Forks() int { return len(in.forkTrace) }
+
+func (in *Interp) fork(fn *ssa.Function, bv Bool) bool {
+	i := len(in.forkTrace)
+	if i >= maxForksPerPath {
+		in.stop("%s: more than %d data-dependent branches on one path (a loop bounded by data?) (condition %s)", fn.Name(), maxForksPerPath, in.boolString(bv))
+	}
+	v := true
+	if i < len(in.forkPrefix) {
+		v = in.forkPrefix[i]
+	}
+	in.forkTrace = append(in.forkTrace, v)
+	return v
+}
+
+// mark records a write to n (and, for aggregates, to everything below it).
+func (in *Interp) mark(n *Node) {
+	if in.Written == nil || n == nil {
+		return
+	}
+	var walk func(n *Node, d int)
+	walk = func(n *Node, d int) {
+		if n == nil || d > 6 {
+			return
+		}
+		in.Written[n] = true
+		for _, k := range n.Kids {
+			walk(k, d+1)
+		}
+	}
+	walk(n, 0)
+}
+
+// Havoc forgets what v points to (a callee summarised by the rule may have
+// written anything there) and records the locations as written.
+func (in *Interp) Havoc(v Value, why string) {
+	switch a := v.(type) {
+	case Ptr:
+		in.mark(a.N)
+		havoc(a.N, why, map[*Node]bool{})
+	case Slice:
+		if !a.Nil {
+			in.mark(a.Arr)
+			havoc(a.Arr, why, map[*Node]bool{})
+		}
+	case Iface:
+		if a.V != nil {
+			in.Havoc(a.V, why)
+		}
+	}
+}
+
+// OpaqueOf is the unknown value of type t (result of a summarised callee).
+func OpaqueOf(t types.Type, why string) Value { return opaqueOf(t, why) }
+
+// WrittenBelow reports whether any location reachable from n (through
+// aggregates, pointers and slices) was written during the run.
+func (in *Interp) WrittenBelow(n *Node) bool {
+	seen := map[*Node]bool{}
+	var walk func(n *Node) bool
+	walk = func(n *Node) bool {
+		if n == nil || seen[n] {
+			return false
+		}
+		seen[n] = true
+		if in.Written[n] {
+			return true
+		}
+		for _, k := range n.Kids {
+			if walk(k) {
+				return true
+			}
+		}
+		switch l := n.Leaf.(type) {
+		case Ptr:
+			return walk(l.N)
+		case Slice:
+			if !l.Nil {
+				return walk(l.Arr)
+			}
+		case Agg:
+			return walk(l.N)
+		}
+		return false
+	}
+	return walk(n)
 }
 
 func New(inModule func(*ssa.Function) bool) *Interp {
@@ -156,7 +318,7 @@ func (in *Interp) Call(fn *ssa.Function, args ...Value) (res Value, err error) {
 			panic(r)
 		}
 	}()
-	return in.run(fn, args, 0), nil
+	return in.run(fn, args, nil, 0), nil
 }
 
 type frame struct {
@@ -170,7 +332,7 @@ func (in *Interp) stop(format string, a ...any) {
 	panic(abort{fmt.Sprintf(format, a...)})
 }
 
-func (in *Interp) run(fn *ssa.Function, args []Value, depth int) Value {
+func (in *Interp) run(fn *ssa.Function, args []Value, free []Value, depth int) Value {
 	if fn.Blocks == nil {
 		in.stop("function %s has no body", fn)
 	}
@@ -185,8 +347,11 @@ func (in *Interp) run(fn *ssa.Function, args []Value, depth int) Value {
 	for i, p := range fn.Params {
 		fr.env[p] = args[i]
 	}
-	if len(fn.FreeVars) > 0 {
-		in.stop("closure %s is not modelled", fn)
+	if len(fn.FreeVars) != len(free) {
+		in.stop("closure %s called without its %d captured variables", fn, len(fn.FreeVars))
+	}
+	for i, fv := range fn.FreeVars {
+		fr.env[fv] = free[i]
 	}
 	var prev *ssa.BasicBlock
 	b := fn.Blocks[0]
@@ -252,7 +417,10 @@ blocks:
 					case e1 && !e0:
 						taken = true
 					default:
-						in.stop("%s: data-dependent branch that does not guard an error exit (condition %s)", fn.Name(), in.boolString(bv))
+						if !in.forkOn {
+							in.stop("%s: data-dependent branch that does not guard an error exit (condition %s)", fn.Name(), in.boolString(bv))
+						}
+						taken = in.fork(fn, bv)
 					}
 					in.Assumed = append(in.Assumed, Assumption{Fn: fn.Name(), Cond: bv, Taken: taken})
 				}
@@ -355,6 +523,8 @@ func (fr *frame) get(v ssa.Value) Value {
 			et := x.Type().(*types.Pointer).Elem()
 			if pat, ok := GlobalRegex(x); ok {
 				n = &Node{T: et, Leaf: Regex{pat}}
+			} else if tn, ok := fr.in.tableInit(x); ok {
+				n = tn // a read-only table: every read sees its initialiser
 			} else if st, ok := et.Underlying().(*types.Struct); ok && st.NumFields() == 0 {
 				n = zeroNode(et)
 			} else {
@@ -368,9 +538,9 @@ func (fr *frame) get(v ssa.Value) Value {
 		}
 		return Ptr{n}
 	case *ssa.Function:
-		return Func{x.String()}
+		return Func{Name: x.String(), Fn: x}
 	case *ssa.Builtin:
-		return Func{x.Name()}
+		return Func{Name: x.Name()}
 	}
 	fr.in.stop("%s: value %s (%T) used before it is defined", fr.fn, v.Name(), v)
 	return nil
@@ -423,6 +593,7 @@ func (fr *frame) store(p Value, v Value) {
 	if a.N == nil {
 		fr.in.stop("%s: store through a nil pointer", fr.fn)
 	}
+	fr.in.mark(a.N)
 	if a.N.Kids != nil {
 		switch ag := v.(type) {
 		case Agg:
@@ -583,7 +754,17 @@ func (fr *frame) eval(v ssa.Value) Value {
 			return i.V
 		}
 		in.stop("%s: type assertion is not modelled", fr.fn)
-	case *ssa.MakeClosure, *ssa.MakeMap, *ssa.MakeChan, *ssa.Range, *ssa.Next, *ssa.Select:
+	case *ssa.MakeClosure:
+		f, ok := x.Fn.(*ssa.Function)
+		if !ok {
+			in.stop("%s: closure over a value that is not a function", fr.fn.Name())
+		}
+		binds := make([]Value, len(x.Bindings))
+		for i, b := range x.Bindings {
+			binds[i] = fr.get(b)
+		}
+		return Func{Name: f.String(), Fn: f, Free: binds}
+	case *ssa.MakeMap, *ssa.MakeChan, *ssa.Range, *ssa.Next, *ssa.Select:
 		in.stop("%s: %T is not modelled", fr.fn.Name(), v)
 	}
 	in.stop("%s: %T is not modelled", fr.fn.Name(), v)
@@ -675,20 +856,17 @@ func (fr *frame) convert(x *ssa.Convert) Value {
 			return s
 		}
 		if isByteSlice(x.Type()) {
-			if s.Opaque {
-				return Opaque{"[]byte of an opaque string"}
-			}
-			arr := &Node{T: types.NewArray(types.Typ[types.Uint8], int64(len(s.Chars))), Kids: make([]*Node, len(s.Chars))}
-			for i, c := range s.Chars {
-				arr.Kids[i] = &Node{T: types.Typ[types.Uint8], Leaf: charByte(c)}
-			}
-			return Slice{Arr: arr, Lo: 0, Hi: len(s.Chars), Cap: len(s.Chars)}
+			return strBytes(s)
 		}
 	case Slice:
 		if isString(x.Type()) {
 			out := &Str{}
 			if !s.Nil {
 				for i := s.Lo; i < s.Hi; i++ {
+					if c, isChar := s.Arr.Kids[i].Leaf.(Char); isChar {
+						out.Chars = append(out.Chars, c) // a symbolic hex digit kept by []byte(string)
+						continue
+					}
 					iv, ok := s.Arr.Kids[i].Leaf.(Int)
 					if !ok {
 						return &Str{Opaque: true, Why: "string of bytes that are not integers"}
